@@ -93,6 +93,8 @@ def p_stmt(c, st, ind, out):
         out.append('%sprint(%s)' % (ind, p_expr(c[1], st)))
     elif k == 'return':
         out.append('%sreturn %s' % (ind, p_expr(c[1], st)))
+    elif k == 'return0':
+        out.append(ind + 'return')
     elif k == 'if':
         out.append('%sif %s:' % (ind, p_expr(c[1], st)))
         p_block(c[2], st, ind + '    ', out)
@@ -176,6 +178,8 @@ def print_project(prj):
         if mod == 'main':
             p_block(prj['main'], st, '', out)
         srcs[mod] = '\n'.join(out).rstrip('\n') + '\n'
+        if mod == 'main' and style.get('no_final_newline'):
+            srcs[mod] = srcs[mod].rstrip('\n')          # the text ends with the last statement's last character
     return srcs
 
 
@@ -949,8 +953,16 @@ class Gen:
             if 'set_x' in self.cmethods:
                 main.append(('expr', ('meth', ('var', 'a'), 'set_x', [('int', r.randint(4, 30))])))
         main.append(('print', ('attr', True, ('var', 'a'), 'x')))
+        no_nl = r.random() < 0.3
+        if no_nl:
+            # the module ends with a (plain or augmented) write of the field and without a newline character
+            if r.random() < 0.5:
+                main.append(('write', True, ('var', 'a'), 'x', self.pure_int(sc), r.choice(['plain', 'tight', 'wide'])))
+            else:
+                main.append(('aug', True, ('var', 'a'), 'x', r.choice(['+', '-', '*']), ('int', r.randint(1, 9)), 'plain'))
+            self.cnt('shape:module-ends-with-a-write-without-newline')
         style = {'mb': r.choice(['from', 'mod']), 'main': r.choice(['from', 'mod']), 'docstring': r.random() < 0.2,
-                 'kw_new': r.random() < 0.3, 'noise': r.random() < 0.5}
+                 'kw_new': r.random() < 0.3, 'noise': r.random() < 0.5, 'no_final_newline': no_nl}
         return {'classes': classes, 'funcs': funcs, 'main': main, 'where': dict(self.where), 'style': style,
                 'defining': self.defining, 'hazard': self.hazard if self.planted else None, 'inherit': self.inherit}
 
@@ -960,7 +972,7 @@ def plant_use_function(prj, rng, hazard=None):
     """Adds a helper function to module ma and instances of its body to the clients.  Returns the helper's name.
     hazard: None | 'temp-live' (a temporary of the matched statements is read afterwards) |
             'dup-effect' (a parameter used twice in the body is matched by an expression with an effect)."""
-    kind = rng.choice(['expr', 'expr2', 'stmts', 'show'])
+    kind = rng.choice(['expr', 'expr2', 'stmts', 'show', 'guard'])
     if hazard == 'temp-live':
         kind = 'stmts'
     if hazard == 'dup-effect':
@@ -990,6 +1002,18 @@ def plant_use_function(prj, rng, hazard=None):
             if hazard == 'temp-live':
                 r.append(('print', ('var', 'u')))
             return r
+    elif kind == 'guard':
+        # a function that leaves early through a bare `return` (guard clause) and returns no value; the clients have
+        # the same statements with `pass` in place of the return (UseFunction turns bare returns into pass when it
+        # builds the pattern; HEAD refuses such a function: the return is not the last statement)
+        name, params = 'guarded', ['p']
+        G0 = rng.randint(2, 5)
+        body = [('if', ('bin', '<', ('var', 'p'), ('int', G0)), [('return0',)], []),
+                ('print', ('var', 'p')), ('print', ('bin', '+', ('var', 'p'), ('int', K)))]
+
+        def inst(args, out):
+            return [('if', ('bin', '<', args[0], ('int', G0)), [], []),
+                    ('print', args[0]), ('print', ('bin', '+', args[0], ('int', K)))]
     else:
         name, params = 'show', ['p']
         body = [('print', ('var', 'p')), ('print', ('bin', '+', ('var', 'p'), ('int', K)))]
@@ -1157,7 +1181,10 @@ def nest_project(rng):
     L.append('            self.b = b')
     L.append('')
     L.append('        def score(self, w):')
-    L.append('            bonus = self.b + %d' % K[0])
+    L.append('            bonus = self.b + %d  # bonus: added to the score' % K[0])
+    L.append('            note = {"bonus": bonus, "w": w}')
+    L.append('            if w < 0:')
+    L.append('                print("bonus = %d" % note["bonus"])')
     L.append('            return self.%s * w + bonus' % fld)
     for i in range(n_after_inner):
         L.append('')
@@ -1182,7 +1209,25 @@ def nest_project(rng):
         L.append('        tot = 0')
         L.append('        for e in self.items:')
         L.append('            tot = tot + e.score(w) + %d' % i)
+        L.append('        print("tot is %d (tot)" % tot)  # tot')
         L.append('        return tot')
+    L.append('')
+    L.append('    def vary(self, first, *rest, **options):')
+    L.append('        acc = first + len(self.items)')
+    L.append('        for r in rest:')
+    L.append('            acc = acc * 2 + r')
+    L.append('        return acc + options.get("k", 0)')
+    L.append('')
+    L.append('')
+    L.append('def spread(first, *rest, **options):')
+    L.append('    acc = first')
+    L.append('    for r in rest:')
+    L.append('        acc = acc * 3 + r')
+    L.append('    return acc + options.get("k", %d)' % K[6])
+    L.append('')
+    L.append('')
+    L.append('def gather(*parts):')
+    L.append('    return len(parts) + %d' % K[7])
     L.append('')
     L.append('')
     L.append('def top(n, q):')
@@ -1207,7 +1252,7 @@ def nest_project(rng):
     ma = '\n'.join(L) + '\n'
     style = r.choice(['from', 'mod'])
     q = 'ma.' if style == 'mod' else ''
-    M = ['import ma' if style == 'mod' else 'from ma import %s, top, plain, solo, LIMIT' % outer_cls, '']
+    M = ['import ma' if style == 'mod' else 'from ma import %s, top, plain, solo, LIMIT, spread, gather' % outer_cls, '']
     M.append('g = %s%s()' % (q, outer_cls))
     M.append('g.add(%d, %d)' % (K[0], K[1]))
     M.append('g.add(%d, %d)' % (K[2], K[3]))
@@ -1218,6 +1263,12 @@ def nest_project(rng):
     M.append('print(e.score(%d), e.%s, e.b)' % (K[6], fld))
     for i in range(n_after_inner):
         M.append('print(e.extra%d())' % i)
+    M.append('print(g.vary(%d), g.vary(%d, %d, %d), g.vary(%d, %d, k=%d), g.vary(%d, k=%d))' % (
+        K[0], K[1], K[2], K[3], K[4], K[5], K[6], K[7], K[0]))
+    M.append('print(%sspread(%d), %sspread(%d, %d, %d), %sspread(%d, %d, k=%d))' % (
+        q, K[0], q, K[1], K[2], K[3], q, K[4], K[5], K[6]))
+    M.append('print(%sgather(), %sgather(%d), %sgather(%d, %d))' % (q, q, K[0], q, K[1], K[2]))
+    M.append('print(e.score(-1))')
     M.append('print(%stop(%d, %d))' % (q, K[1], K[2]))
     M.append('print(%splain(e, %d), e.%s)' % (q, K[3], fld))
     M.append('print(%splain(e, %d), e.%s)' % (q, K[4], fld))
@@ -1231,11 +1282,12 @@ def nest_project(rng):
     M.append('print(qq)')
     srcs = {'ma': ma, 'main': '\n'.join(M) + '\n'}
     funcs = ['score', 'helper', 'deep', 'inner', 'top', 'plain', 'solo', 'add'] + ['after%d' % i for i in range(n_after_deep)]
+    special = ['vary', 'spread', 'gather']          # hosts with *args / **kwds parameters
     # (text that starts at the variable, is it a local of a method)
-    locs = [('bonus = self.b', True), ('r = v * k', False), ('z = v + ', False), ('%s = e.%s' % (loc_plain, fld), False),
+    locs = [('bonus = self.b', True), ('note = {', True), ('r = v * k', False), ('z = v + ', False), ('%s = e.%s' % (loc_plain, fld), False),
             ('acc = n + ', False), ('s = helper', True), ('tot = 0', True), ('n, q)', False), ('w):\n            bonus', False),
-            ('LIMIT = ', False)]
-    return srcs, funcs, locs
+            ('LIMIT = ', False), ('acc = first + len', True)]
+    return srcs, funcs + special, locs
 
 
 # ----------------------------------------------------------------------------------------- right-hand sides of augmented writes
@@ -1301,3 +1353,31 @@ def compound_class_project(rng):
     M = ['import ma' if style == 'mod' else 'from ma import C, make, LAST', '',
          'c = %sC(%d)' % (q, K[0]), 'print(c.get(), %smake(%d), %sLAST.get())' % (q, K[1], q)]
     return {'ma': ma, 'main': '\n'.join(M) + '\n'}
+
+
+def factory_shape_project(rng, which):
+    """IntroduceFactory text scenarios: 'tail' = the class has class-level statements after its last method;
+    'clash' = a client module defines a top-level name spelled like the factory (from-import or import-module style)."""
+    r = rng
+    K = [r.randint(1, 6) for _ in range(4)]
+    if which == 'tail':
+        L = ['class C(object):', '', '    def __init__(self, v):', '        self.x = v', '',
+             '    def get(self):', '        return self.x + self.limit', '', '    limit = %d' % K[0]]
+        if r.random() < 0.5:
+            L.append('    other = limit + %d' % K[1])
+        else:
+            L.append('    other = %d' % K[1])
+        L += ['', '', 'def after(n):', '    return C(n).get() + %d' % K[2]]
+        style = r.choice(['from', 'mod'])
+        q = 'ma.' if style == 'mod' else ''
+        M = ['import ma' if style == 'mod' else 'from ma import C, after', '', 'c = %sC(%d)' % (q, K[3]),
+             'print(c.get(), %sC.other, %safter(%d))' % (q, q, K[0])]
+        return {'ma': '\n'.join(L) + '\n', 'main': '\n'.join(M) + '\n'}
+    ma = 'class C(object):\n\n    def __init__(self, v):\n        self.x = v + %d\n' % K[0]
+    style = r.choice(['from', 'mod'])
+    name = r.choice(['create', 'create', 'created'])
+    head = 'from ma import C' if style == 'from' else 'import ma'
+    q = '' if style == 'from' else 'ma.'
+    mb = ('%s\n\n\ndef %s(n):\n    return n + %d\n\n\ndef f(n):\n    return %sC(%s(n)).x\n' % (head, name, K[1], q, name))
+    main = 'from mb import f\nprint(f(%d))\n' % K[2]
+    return {'ma': ma, 'mb': mb, 'main': main}
